@@ -242,8 +242,8 @@ theorem evalP_error_of_fail (env : Env) (e : Expr) (m : Msg) (fl : MFlags)
 theorem sysCall_command_value (av : List Bytes) (orcl : Nat → Call → Res) (j : Nat) :
     (Own.runO orcl (sysCall (.command av)) j).1 =
       .status (match orcl j (.openPath (ofString "/dev/null")) with
-        | .ok _ => execValue true (orcl (j + 1) .fork) (orcl (j + 2) .waitpid)
-        | _ => execValue false (orcl (j + 1) .fork) (orcl (j + 2) .waitpid)) := by
+        | .ok h => execValue true (orcl (j + 1) (.fork (av.map cstr) h)) (orcl (j + 2) .waitpid)
+        | r => execValue false (orcl (j + 1) (.fork (av.map cstr) (Own.okHandle r))) (orcl (j + 2) .waitpid)) := by
   simp only [sysCall, Own.runO_bind, Own.runO_ret, Own.execP_run]
   cases orcl j (.openPath (ofString "/dev/null")) <;> rfl
 
@@ -253,9 +253,10 @@ statements of Proofs/ExecStatus.lean (`eval_command`, `commandTri`, `childOutcom
 theorem evalT_command_run (env : Env) (root : Msg) (lno : Nat) (argv : List Bytes) (part : Nat) (m : Msg) (st : St)
     (orcl : Nat → Call → Res) (j : Nat) :
     (Own.runO orcl (evalT env root (.command lno argv) part m st).toProg j).1 =
-      eval { env with command := (fun _ =>
+      eval { env with command := (fun av =>
           execValue (match orcl j (.openPath (ofString "/dev/null")) with | .ok _ => true | _ => false)
-            (orcl (j + 1) .fork) (orcl (j + 2) .waitpid)) }
+            (orcl (j + 1) (.fork (av.map cstr) (Own.okHandle (orcl j (.openPath (ofString "/dev/null"))))))
+            (orcl (j + 2) .waitpid)) }
         root (.command lno argv) part m st := by
   rw [eval_command]
   have happ : matchesAppend env st.ml { ty := .command, lno := lno, part := part, strings := argv } =
